@@ -12,6 +12,9 @@ ENUMS = [
     {"k": "enum", "cls": "Heading", "members": ["NORTH", "SOUTH", "true", "0"]},
     # member *values* that are other members' names (a by-value lookup would return the wrong member)
     {"k": "enum", "cls": "Swap", "members": ["UP", "DOWN", "LEFT", "RIGHT"], "values": ["DOWN", "UP", "RIGHT", "LEFT"]},
+    # class Level(str, Enum) and an IntEnum (trees.ENUM_MIXINS): members that are also str / int instances
+    {"k": "enum", "cls": "Level", "members": ["LOW", "MID", "HIGH", "NONE"], "values": ["low", "mid", "high", ""]},   # NONE is falsy
+    {"k": "enum", "cls": "Prio", "members": ["P0", "P1", "P2"], "values": [0, 1, 2]},
 ]
 BASES = ["int", "float", "str", "bool", "path", "enum"]
 INTS = [0, 1, -1, 7, -5, 42, 10**30, -(10**18), 1000000, 3]
